@@ -113,6 +113,36 @@ func (h *hconn) do(method, host, cid string, hdrs [][2]string, upgrade bool) (*h
 	return &hreply{status: st, hdr: mh}, nil
 }
 
+// get sends a GET request for a web endpoint with extra headers and reads the reply head.
+func (h *hconn) get(path, host string, hdrs [][2]string) (*hreply, error) {
+	var sb strings.Builder
+	fmt.Fprintf(&sb, "GET %s HTTP/1.1\r\nHost: %s\r\n", path, host)
+	for _, x := range hdrs {
+		fmt.Fprintf(&sb, "%s: %s\r\n", x[0], x[1])
+	}
+	sb.WriteString("\r\n")
+	h.c.SetDeadline(time.Now().Add(8 * time.Second))
+	defer h.c.SetDeadline(time.Time{})
+	if _, err := h.c.Write([]byte(sb.String())); err != nil {
+		return nil, err
+	}
+	tp := textproto.NewReader(h.br)
+	line, err := tp.ReadLine()
+	if err != nil {
+		return nil, err
+	}
+	parts := strings.SplitN(line, " ", 3)
+	st := 0
+	if len(parts) >= 2 {
+		st, _ = strconv.Atoi(parts[1])
+	}
+	mh, _ := tp.ReadMIMEHeader()
+	if n, _ := strconv.Atoi(mh.Get("Content-Length")); n > 0 {
+		io.CopyN(io.Discard, h.br, int64(n))
+	}
+	return &hreply{status: st, hdr: mh}, nil
+}
+
 // challengeSchemes lists the scheme words of the WWW-Authenticate headers.
 func challengeSchemes(h textproto.MIMEHeader) []string {
 	set := map[string]bool{}
